@@ -316,7 +316,7 @@ theorem gen_defaults :
 /-- the two methods that are not translated are pinned: the source the hand model (`orderedSegments`,
     `segmentLocationInfoG` in `Model/Morph.lean`) was written from has this AST (doc strings aside) -/
 theorem gen_pins :
-    pin_get_ordered_segments_in_groups = "ef0448e201d598dc209b606a" ∧
-    pin_get_segment_location_info = "03efb3811431c2aea0d4628f" := by decide
+    pin_get_ordered_segments_in_groups = "1a8fec43b71cfb113a55735d" ∧
+    pin_get_segment_location_info = "9afc8eadd285fef07fa0491a" := by decide
 
 end NmlVerif.Morph.C13Gen
